@@ -627,11 +627,12 @@ func (e *kvElection) Stop() error {
 	e.recordTransition(currentState, StateStopped)
 	e.updateIsLeaderMetric()
 
+	e.mu.Unlock()
+
+	// Outside e.mu: the grace timer callback takes the handler's mutex and then e.mu.
 	if e.disconnectHandler != nil {
 		e.disconnectHandler.stop()
 	}
-
-	e.mu.Unlock()
 
 	log := e.getLogger()
 	log.Info("election_stopped",
@@ -701,11 +702,12 @@ func (e *kvElection) StopWithContext(ctx context.Context, opts StopOptions) erro
 	e.recordTransition(currentState, StateStopped)
 	e.updateIsLeaderMetric()
 
+	e.mu.Unlock()
+
+	// Outside e.mu: the grace timer callback takes the handler's mutex and then e.mu.
 	if e.disconnectHandler != nil {
 		e.disconnectHandler.stop()
 	}
-
-	e.mu.Unlock()
 
 	if e.connectionMonitor != nil {
 		_ = e.connectionMonitor.Stop()
